@@ -6,11 +6,11 @@
 //@ assumes: JSON values are concrete shapes: [10,20], 7, "s", null, {"a":1,"b":[5]}; the index / accessor number / field name are symbolic
 //@ decides: C24: an array index selects exactly element idx and fails iff idx is out of range or the value is not an array, for every u32; an accessor number is accepted iff it is a non-negative integer <= u32::MAX (any u64 / i64 / f64); a field name selects exactly that member and fails iff it is absent or the value is not an object; accessors of other JSON types are rejected
 //@ outside: the lambda parser; paths longer than 1 step are folds of these steps (select_by_path_from_scalar is a loop over them) - decided for 2-step paths in air_lens_path if tractable; canon stream / map first-index selection
-//@ harness: name=c24_index_selection props=C24 cap=600 cost=30 sym="idx: any u32" bound="array of 2 elements; non-array shapes 7, \"s\", null"
-//@ harness: name=c24_accessor_number props=C24 cap=600 cost=30 sym="u: any u64; n: any i64; x: any f64" bound="none"
-//@ harness: name=c24_select_by_number_accessor props=C24 cap=900 cost=60 sym="accessor number: any u64" bound="array of 2 elements"
-//@ harness: name=c24_field_selection props=C24 cap=1800 cost=200 sym="field name chosen among a, b, zz, empty" bound="object {a:1,b:[5]} and non-object shapes"
-//@ harness: name=c24_lens_vacuity props=C24 expect=fail cap=600 cost=30 sym="idx: any u32" bound="array of 2"
+//@ harness: name=c24_index_selection playback=1 props=C24 cap=600 cost=30 sym="idx: any u32" bound="array of 2 elements; non-array shapes 7, \"s\", null"
+//@ harness: name=c24_accessor_number playback=1 props=C24 cap=600 cost=30 sym="u: any u64; n: any i64; x: any f64" bound="none"
+//@ harness: name=c24_select_by_number_accessor playback=1 props=C24 cap=900 cost=60 sym="accessor number: any u64" bound="array of 2 elements"
+//@ harness: name=c24_field_selection playback=1 props=C24 cap=1800 cost=200 sym="field name chosen among a, b, zz, empty" bound="object {a:1,b:[5]} and non-object shapes"
+//@ harness: name=c24_lens_vacuity playback=1 props=C24 expect=fail cap=600 cost=30 sym="idx: any u32" bound="array of 2"
 
 use super::*;
 
